@@ -357,7 +357,7 @@ def rule_persist(ctx, classes=SKETCH_CLASSES):
         # how the loader feeds them back
         cc = li.ctor_call
         fed = None
-        if cc.args and isinstance(cc.args[0], ast.Starred) and isinstance(cc.args[0].value, ast.Name) and cc.args[0].value.id == li.args_name:
+        if cc.args and isinstance(cc.args[0], ast.Starred) and _is_args_expr(cc.args[0].value, li):
             fed = list(range(len(saved)))
             okf = len(cc.args) == 1
         else:
@@ -366,11 +366,11 @@ def rule_persist(ctx, classes=SKETCH_CLASSES):
             envidx = {}
             for n in walk_no_nested(load.node):
                 if isinstance(n, ast.Assign) and isinstance(n.targets[0], ast.Name):
-                    i = _args_index(n.value, li.args_name)
+                    i = _args_index(n.value, li)
                     if i is not None:
                         envidx[n.targets[0].id] = i
             for a in cc.args:
-                i = _args_index(a, li.args_name)
+                i = _args_index(a, li)
                 if i is None and isinstance(a, ast.Name):
                     i = envidx.get(a.id)
                 fed.append(i)
@@ -412,11 +412,19 @@ def rule_persist(ctx, classes=SKETCH_CLASSES):
                        "" if okk else "args array dtype is %r" % dt)
 
 
-def _args_index(node, args_name):
+def _is_args_expr(node, li):
+    """The saved constructor-argument array: the local bound to <npz>["args"], or that subscript itself."""
+    if isinstance(node, ast.Name) and li.args_name is not None and node.id == li.args_name:
+        return True
+    return isinstance(node, ast.Subscript) and isinstance(node.value, ast.Name) and node.value.id == li.npz \
+        and isinstance(node.slice, ast.Constant) and node.slice.value == "args"
+
+
+def _args_index(node, li):
     """i if node is  args[i]  possibly wrapped in a scalar constructor."""
     if isinstance(node, ast.Call) and len(node.args) == 1 and not node.keywords:
-        return _args_index(node.args[0], args_name)
-    if isinstance(node, ast.Subscript) and isinstance(node.value, ast.Name) and node.value.id == args_name:
+        return _args_index(node.args[0], li)
+    if isinstance(node, ast.Subscript) and _is_args_expr(node.value, li):
         return const_int(node.slice)
     return None
 
